@@ -42,12 +42,35 @@ ASSUMPTIONS = [
 
 
 # ------------------------------------------------------------------ reading a candidate state
+_ROUTE = [0]
+
+
 def try_read(path):
+    """Opens the file the way a user may: by path, as an opened file object, through open_coordinate_file (in turn)."""
+    _ROUTE[0] += 1
+    fh = None
     try:
         with env.quiet():
-            g = GroFile(path)
+            if _ROUTE[0] % 3 == 1:
+                fh = open(path)
+                g = GroFile(fh)
+            elif _ROUTE[0] % 3 == 2:
+                from gaddlemaps.parsers import open_coordinate_file
+                g = open_coordinate_file(path)
+            else:
+                g = GroFile(path)
             try:
                 recs = g.readlines()
+                if not recs:
+                    # an object that opened without complaint but hands out nothing at first: ask it again from the start
+                    g.seek_atom(0)
+                    for _ in range(int(g.natoms)):
+                        try:
+                            recs.append(next(g))
+                        except Exception:      # noqa: BLE001
+                            break
+                    if not recs:
+                        return "raise", "no-records"
             finally:
                 g.close()
         return "ok", [tuple(r) for r in recs]
@@ -55,6 +78,12 @@ def try_read(path):
         if isinstance(exc, (KeyboardInterrupt, SystemExit, MemoryError)):
             raise
         return "raise", type(exc).__name__
+    finally:
+        if fh is not None:
+            try:
+                fh.close()
+            except Exception:      # noqa: BLE001
+                pass
 
 
 def box_line_start(data):
